@@ -165,7 +165,9 @@ Fixed(b) ==
   IF B(b, 0) \notin {108, 66} THEN [ok |-> FALSE, total |-> 0, le |-> TRUE, flen |-> 0, blen |-> 0]
   ELSE IF Huge(b, 4, le) \/ Huge(b, 12, le) THEN [ok |-> FALSE, total |-> 0, le |-> le, flen |-> 0, blen |-> 0]
   ELSE LET blen == U32(b, 4, le)  flen == U32(b, 12, le)  hl == 16 + flen + Pad(16 + flen, 8) IN
-       IF flen > MaxArrayLen \/ hl + blen > MaxMsgLen THEN [ok |-> FALSE, total |-> 0, le |-> le, flen |-> flen, blen |-> blen]
+       \* (a field array over 2^26 bytes is refused when the header is decoded, see DecVal; the first 16 bytes
+       \* alone only have to respect the total message limit)
+       IF hl + blen > MaxMsgLen THEN [ok |-> FALSE, total |-> 0, le |-> le, flen |-> flen, blen |-> blen]
        ELSE [ok |-> TRUE, total |-> hl + blen, le |-> le, flen |-> flen, blen |-> blen]
 
 \* b holds exactly one message (Len(b) = total length): [ok, m]
